@@ -187,11 +187,21 @@ CLAIMED['C02'] = {
           'import; F-C02-1). Not covered: examples, annotations and patches in the model; the text-level mutators of C03.',
   'design': '7.3 (C02)',
 }
+CLAIMED['C01'] = {
+  'text': 'Accepts exactly the legal specs, partly proved: for the literal-check layer of the IR primitive types (check / __init__ of the '
+          'integer, float, string, boolean, bytes and void types) acceptance is proved (z3) equal to the rule of the language reference -- a '
+          'default or attribute literal is accepted iff it fits the declared type and its arguments. The rest of the rule set lives in the '
+          'parser and the passes of ir_generator.py, which are NOT proved: random API models are rendered to text and compiled either as they '
+          'are (must be accepted) or with exactly one violation, from a catalogue of 24 rules of docs/lang_ref.rst, injected at a random '
+          'applicable site (undefined / duplicate / clashing names, illegal inheritance incl. cycles and closed-over-open unions, Void fields, '
+          'illegal type arguments and bounds, defaults that do not fit, missing / undefined imports, duplicate routes, unknown or ill-typed '
+          'route attributes, alias cycles): must raise the spec error -- a BOUNDED stand-in.',
+  'note': 'Found and fixed: a type / alias / annotation named like an earlier route crashed with AttributeError (F-C01-1). The catalogue has 24 of '
+          'the ~45 rules of the reference; syntax and indentation rules are exercised only through C03. Int32(min_value > max_value) is accepted by '
+          'the compiler; the reference does not state that rule, so it is not in the catalogue.',
+  'design': '7.3 (C01)',
+}
 NOT_YET = {
- 'C01': 'not decided by this technique in this revision: acceptance <=> language rules is a property of the whole frontend (ply lexer / LALR tables, '
-        'the parser actions and the ten resolution passes of ir_generator.py, ~2000 lines over mutable AST/IR graphs), which is outside the Python '
-        'subset the VC generator handles; only the literal-check layer of the IR primitive types is under contract (proved, tagged C01/C03/C10 in '
-        'contracts/ir_types.py) and one layer does not decide the property',
 }
 NA = {
  'C09': 'property of emitted Python source when imported; no contract on an emitting function can express the semantics of its output text',
